@@ -5,10 +5,13 @@
    registered; justified by the deque theorems of C02).
    locs: 10+2t = scheduler t's schedule_from, 11+2t = store_to, 200+f = fiber f's state.
    Fiber states: 0 none, 1 RUNNING, 2 READY, 3 WAITING, 5 SAVING_STATE_TO_WAIT.
-   inwq f (harness array inwq[], not a registered location): fiber f sits in a
-   wait queue outside the scheduler, i.e. it blocked and no waker has consumed
-   that yet.  wake / park-saving test-and-clear it in the grant of their read of
-   the state (the real wakers find a waiter by popping it from its wait queue).
+   inwq f (harness array inwq[], not a registered location): fiber f is parked
+   in a wait queue outside the scheduler: it blocked, its kernel thread has
+   switched away from it, and no waker has consumed that yet.  It is set in the
+   grant of the last access of the blocking yield (the RUNNING write of the
+   successor, or the read that makes next() return NULL); wake / park-saving
+   test-and-clear it in the grant of their read of the state (the real wakers
+   find a waiter by popping it from its wait queue).
    park-saving f = a waker that finds f before f finished switching away: the
    state is SAVING when f is scheduled; flip f = the maintenance of f's
    successor (SAVING -> WAITING).  next() re-queues a popped SAVING fiber on
@@ -138,7 +141,8 @@ Definition next_ret (s : st) (t : nat) (T : tst) (k : kont) (nf : nat) : st * li
   | KYield stv =>
       match nf with
       | O => let c := if Z.eqb stv 3 then O else cur T in
-             let '(e, T') := finish t T c (Zn c) in (set_thr s t T', e)
+             let s0 := if Z.eqb stv 3 then set_wq s (cur T) true else s in   (* parked *)
+             let '(e, T') := finish t T c (Zn c) in (set_thr s0 t T', e)
       | S _ => (set_thr s t (with_pc T (PY2 nf)), [])
       end
   | KIdle =>
@@ -184,7 +188,7 @@ Definition step (s : st) (t : nat) : st * list Z :=
       | KWake g => let '(e1, T') := finish t T (cur T) (Zn g) in (set_thr s1 t T', e ++ e1)
       | _ => (s1, e)
       end
-  | PBlockW => (set_thr (set_wq (set_fs s (cur T) 3) (cur T) true) t (with_pc T PYRead), ev t (l_fs (cur T)) 19 3)
+  | PBlockW => (set_thr (set_fs s (cur T) 3) t (with_pc T PYRead), ev t (l_fs (cur T)) 19 3)
   | PYRead => (set_thr s t (with_pc T (PN1 (KYield (fstt s (cur T))))), ev t (l_fs (cur T)) 9 (fstt s (cur T)))
   (* ---- fiber_scheduler_next ---- *)
   | PN1 k =>
@@ -229,7 +233,7 @@ Definition step (s : st) (t : nat) : st * list Z :=
       let s1 := set_fs s nf 1 in
       let e := ev t (l_fs nf) 19 1 in
       match ts with
-      | O => let '(e1, T') := finish t T nf (Zn nf) in (set_thr s1 t T', e ++ e1)
+      | O => let '(e1, T') := finish t T nf (Zn nf) in (set_thr (set_wq s1 (cur T) true) t T', e ++ e1)   (* old fiber parked *)
       | S _ => (set_thr s1 t (with_pc T (PSched ts (KRequeue nf))), e)
       end
   (* ---- load_balance ---- *)
